@@ -161,3 +161,19 @@ Print Assumptions c16_web_req_text.
 Print Assumptions c16_web_kind_table.
 Print Assumptions c16_web_req_headers.
 Print Assumptions c16_web_translate_call.
+
+(* the constants written by hand in the model equal the ones regenerated from the Rust source
+   (Gen/ConstTables.v, rewritten by rs2v on every run) *)
+From Verif Require Gen.ConstTables Proofs.ConstTies Model.Encoder Model.Decoder Model.WebServer.
+Import Gen.ConstTables.
+Theorem c16_constants_tied :
+  WebServer.WebConsts.GRPC_WEB = web_ct_grpc_web /\
+  WebServer.WebConsts.GRPC_WEB_PROTO = web_ct_grpc_web_proto /\
+  WebServer.WebConsts.GRPC_WEB_TEXT = web_ct_grpc_web_text /\
+  WebServer.WebConsts.GRPC_WEB_TEXT_PROTO = web_ct_grpc_web_text_proto /\
+  WebServer.WebConsts.GRPC_CONTENT_TYPE = grpc_content_type /\
+  WebServer.GRPC_WEB_TRAILERS_BIT = web_trailers_bit /\
+  Frame.HEADER_SIZE = web_frame_header_size /\
+  Frame.HEADER_SIZE = web_grpc_header_size.
+Proof. exact ConstTies.web_constants_tied. Qed.
+Print Assumptions c16_constants_tied.
